@@ -588,6 +588,9 @@ func (w *World) count(store string, row *Row, sym string, sub *SubQ) int {
 	var match []string
 	for _, id := range uniqSorted(l) {
 		tr := w.Rows[info.Target][id]
+		if info.KidOnly && !HashKid(id) {
+			continue // not a member of the child store the set is typed to
+		}
 		if tr != nil && w.Eval(sub.Q.Pred, info.Target, tr) {
 			match = append(match, id)
 		}
